@@ -46,22 +46,22 @@ CHECKS = {
           "A request is accepted iff its store returned Ok; ids named by a foreign request while unknown to the store are unspecified.",
           "DESIGN.md section 4 C11"),
   "C12": ("exploration",
-          "stateful property-based testing: full observable snapshot (lookups, markers, ~25-80 queries over every index plan, ten index counts, extra tables) compared before/after every failing store in histories biased towards failures after in-transaction effects",
-          "Generated histories; snapshot(before) == snapshot(after) for every store that returns an error.",
-          "event_bytes excluded (orphan bytes of failed stores are unreachable).",
+          "stateful property-based testing: full observable snapshot (lookups, markers, ~25-80 queries over every index plan, ten index counts, extra tables) compared before/after every failing store in histories biased towards failures after in-transaction effects; plus fault injection at system-call level (ptrace): each chosen ftruncate/pwrite/writev/mremap/msync/... call of a history run in a child process is made to fail with ENOSPC/EIO and the child's snapshot after the failing store is compared with the reference snapshot before it",
+          "Generated histories; snapshot(before) == snapshot(after) for every store that returns an error, whether the error is one of the store's own refusals or an injected I/O failure. Open known finding: a failed LMDB meta-page write leaves the environment in LMDB's fatal state (KNOWN-FINDING line); other violations are still reported.",
+          "event_bytes excluded (orphan bytes of failed stores are unreachable). Injected failures need ptrace (linux/x86_64); where it is unavailable that part reports inconclusive (exit 2).",
           "DESIGN.md section 4 C12"),
   "C13": ("fault_enumeration",
-          "fault injection by enumeration: generated histories run in child processes that SIGKILL themselves at the k-th named hook point, for every k (plus random-instant kills in the thorough tier); oracle = reopen succeeds, snapshot equals the reference state before or after the interrupted call, continuation equals the uninterrupted reference run",
-          "Every named kill point of every generated history is executed (complete per history): reopen must succeed, the observable state must be the reference state before or after the interrupted call (vanish: in between), all retrievable events intact, and the rest of the history must behave as in the uninterrupted run.",
-          "Process death (SIGKILL), not power loss; kill instants are the compiled-in points (incl. a half-copied append) plus sampled random instants.",
+          "fault injection by enumeration: generated histories run in child processes that SIGKILL themselves at the k-th named hook point, for every k; every second history is additionally run under ptrace and killed at the entry of every system call it makes (plus random-instant kills in the thorough tier); oracle = reopen succeeds, snapshot equals the reference state before or after the interrupted call, continuation equals the uninterrupted reference run",
+          "Every named kill point of every generated history and, for every second history, every system-call boundary is executed (complete per history): reopen must succeed, the observable state must be the reference state before or after the interrupted call (vanish: in between), all retrievable events intact, and the rest of the history must behave as in the uninterrupted run.",
+          "Process death (SIGKILL), not power loss; kill instants are the compiled-in points (incl. a half-copied append), every system-call entry, plus sampled random instants.",
           "DESIGN.md section 4 C13"),
   "C14": ("exploration",
-          "schedule exploration with a controller that owns the interleaving at hook-point granularity (generated, shrinkable schedules) + serial-replay (linearizability-style) oracle in lock-acquisition order with per-read prefix windows; free-running multi-core stress in the thorough tier",
+          "schedule exploration with a controller that owns the interleaving at hook-point granularity (generated, shrinkable schedules) + serial-replay (linearizability-style) oracle in lock-acquisition order with per-read prefix windows; a hook-free 'one writer, three free-running readers' phase whose answers must follow the prefixes of the writer's program order; free-running multi-core stress in the thorough tier",
           "Generated (threads x ops, schedule) cases over a colliding 8-event universe; writer results and the final state must equal a serial replay in lock order and every read must equal the answer for some committed prefix inside its time window.",
           "Granularity = named points; only the LMDB writer lock is modelled (anything else blocking => inconclusive, exit 2); no file growth during a case.",
           "DESIGN.md section 4 C14"),
   "C15": ("exploration",
-          "stateful property-based testing with a forced-layout trick (PROT_NONE page mapped with MAP_FIXED_NOREPLACE behind the mapping so a moving remap is deterministic); oracle = address identity and byte equality of fresh lookups for every held reference after every step",
+          "stateful property-based testing with a forced-layout trick (PROT_NONE page mapped with MAP_FIXED_NOREPLACE behind the mapping so a moving remap is deterministic); oracle = address identity and byte equality of fresh lookups for every held reference after every step; 30% of the sequences on a block file system (ext4), the rest on tmpfs",
           "Generated sequences of store / take-reference / grow steps (also from a second thread); every held reference must keep its address and bytes. On the pinned tree the mapping moves at growth: recorded as an open known finding (KNOWN-FINDING line), other violations of the property are still reported.",
           "Address identity of a fresh lookup stands in for validity of the old reference; the stale reference is never dereferenced.",
           "DESIGN.md section 4 C15"),
